@@ -112,4 +112,20 @@ example : offered TravEx.cfg {} TravEx.evs =
      ⟨TravEx.nid 1, TravEx.addr 4, some [2]⟩] := by
   decide +kernel
 
+/-- T1: the closest set is a persistent structure that is read, pushed into and stored back in ONE critical
+section of the operation's lock: `addClosest` is called from the query goroutine between `op.mu.Lock()`
+and the deferred unlock, its `Push` is immediately followed by the store, and it neither releases nor
+re-takes the lock in between. (Built outside the lock, two replies folded in concurrently lose one
+responder: the model's `queryReturn` step is atomic for this reason.) -/
+def idxC (l : List String) (x : String) : Nat := l.findIdx (· == x)
+
+theorem C02.closest_set_updated_under_lock :
+    Gen.evStartQuery.getD (idxC Gen.evStartQuery "op.addClosest" - 5) "" = "op.mu.Lock" ∧
+    Gen.evStartQuery.getD (idxC Gen.evStartQuery "op.addClosest" - 4) "" = "defer" ∧
+    Gen.evStartQuery.getD (idxC Gen.evStartQuery "op.addClosest" - 3) "" = "op.mu.Unlock" ∧
+    Gen.evStartQuery.getD (idxC Gen.evStartQuery "op.addClosest" + 1) "" = "}" ∧
+    Gen.evAddClosest.getD (idxC Gen.evAddClosest "op.closest.Push" + 1) "" = "set:op.closest" ∧
+    Gen.evAddClosest.contains "op.mu.Lock" = false ∧ Gen.evAddClosest.contains "op.mu.Unlock" = false := by
+  decide +kernel
+
 end Dht
